@@ -6,6 +6,7 @@ from ..fde import FDE, Obj
 from ..mutate import Mutant, in_func, delete_stmt, in_module
 from ..report import AnalysisError
 from ..srcmodel import unparse, norm, walk_no_nested, calls_in
+from . import mergerules as mr
 from .common import (cfg_of, node_obj, is_method_call, F3, product_dicts, fde_guard, inside_with_calling,
                      facts_at, find_stmt_node, derives_from, get_kw, name_defs, recv_of)
 
@@ -56,9 +57,25 @@ def _sink_kind(call, tainted):
     return None
 
 
-def _tainted_names(fi):
-    """local names bound (directly) from self._func or import_name(...)"""
+def _tainted_names(repo, fi):
+    """local names bound from self._func, import_name(...), or unpacked from a helper that returns the target"""
     out = set()
+    for n in walk_no_nested(fi.node):
+        if isinstance(n, ast.Assign) and isinstance(n.value, ast.Call) and isinstance(n.value.func, ast.Attribute) and norm(n.value.func.value) in ('self', 'self.ayns'):
+            for t in repo.resolve_call(n.value, fi):
+                if t is not fi and t.cls is not None and t.name != 'on_evaluate_impl':
+                    rets = [s for s in walk_no_nested(t.node) if isinstance(s, ast.Return) and s.value is not None]
+                    inner = _tainted_names_local(t)
+                    if any(isinstance(x, ast.Name) and x.id in inner for r in rets for x in ast.walk(r.value)):
+                        for tg in n.targets:
+                            for x in ast.walk(tg):
+                                if isinstance(x, ast.Name):
+                                    out.add(x.id)
+    return out | _tainted_names_local(fi, out)
+
+
+def _tainted_names_local(fi, seed=()):
+    out = set(seed)
     changed = True
     while changed:
         changed = False
@@ -74,19 +91,51 @@ def _tainted_names(fi):
     return out
 
 
-def _has_sink(repo, fi, depth=0, _seen=None):
-    _seen = _seen if _seen is not None else set()
-    if fi.qualname in _seen or depth > 3:
-        return False
-    _seen.add(fi.qualname)
-    tainted = _tainted_names(fi)
-    for c in calls_in(fi.node):
-        if _sink_kind(c, tainted):
+def _helper_summary(repo, fi, depth=0, _stack=None):
+    """(ungated_sinks, acts_as_gate, returns_tainted) for a helper reachable from on_evaluate_impl.
+    ungated_sinks: execution sinks inside the helper (or deeper) that its own gate does not dominate;
+    acts_as_gate: a gate call is passed on every path to a normal exit of the helper;
+    returns_tainted: a return value derives from the node target."""
+    _stack = _stack if _stack is not None else []
+    if fi.qualname in _stack or depth > 3:
+        return [], False, False
+    _stack = _stack + [fi.qualname]
+    g = cfg_of(fi)
+    tainted = _tainted_names(repo, fi)
+    is_gate = _gate_pred(repo, fi)
+    seen, IN = cfgmod.must_have_seen(g, is_gate)
+    ungated = []
+    for n in g.stmt_nodes():
+        for c in n.calls():
+            kind = _sink_kind(c, tainted)
+            if kind is None:
+                for t in repo.resolve_call(c, fi):
+                    if t.qualname in R1_EXEMPT or t.name == 'on_evaluate_impl' or t is fi:
+                        continue
+                    sub_ungated, _, _ = _helper_summary(repo, t, depth + 1, _stack)
+                    if sub_ungated:
+                        kind = 'helper %s with ungated %s' % (t.qualname, sub_ungated[0][1])
+            if kind and not cfgmod.dominated_by_gate(g, n, c, is_gate, seen):
+                ungated.append((c, kind))
+    exit_in = IN.get(g.exit.id)
+    acts = exit_in is not None and 'gate' in exit_in
+    rets = [s for s in walk_no_nested(fi.node) if isinstance(s, ast.Return) and s.value is not None]
+    rt = any(isinstance(x, ast.Name) and x.id in tainted for r in rets for x in ast.walk(r.value))
+    return ungated, acts, rt
+
+
+def _gate_pred(repo, fi):
+    """gate = self.ayns._require_safe(...) or a call of a helper on self that passes the gate on all its normal exits"""
+    def pred(call):
+        if _is_gate(call):
             return True
-        for t in repo.resolve_call(c, fi):
-            if t.qualname not in R1_EXEMPT and t.name != 'on_evaluate_impl' and _has_sink(repo, t, depth + 1, _seen):
-                return True
-    return False
+        if isinstance(call.func, ast.Attribute) and norm(call.func.value) in ('self', 'self.ayns') and call.func.attr not in ('_require_safe', 'on_evaluate_impl'):
+            for t in repo.resolve_call(call, fi):
+                if t is not fi and t.cls is not None and not t.is_property:
+                    if _helper_summary(repo, t, 1, [fi.qualname])[1]:
+                        return True
+        return False
+    return pred
 
 
 def r1(repo, run):
@@ -96,8 +145,9 @@ def r1(repo, run):
     gate_def = repo.func('ConfigNode.ayns._require_safe')
     for fi in impls:
         g = cfg_of(fi)
-        tainted = _tainted_names(fi)
-        seen, _ = cfgmod.must_have_seen(g, _is_gate)
+        tainted = _tainted_names(repo, fi)
+        is_gate = _gate_pred(repo, fi)
+        seen, _ = cfgmod.must_have_seen(g, is_gate)
         for n in g.stmt_nodes():
             for c in n.calls():
                 kind = _sink_kind(c, tainted)
@@ -105,11 +155,14 @@ def r1(repo, run):
                     for t in repo.resolve_call(c, fi):
                         if t.qualname in R1_EXEMPT or t.name == 'on_evaluate_impl':
                             continue
-                        if _has_sink(repo, t):
-                            kind = 'helper %s reaching an execution primitive' % t.qualname
+                        ungated, acts, _ = _helper_summary(repo, t, 1, [fi.qualname])
+                        if ungated:
+                            kind = 'helper %s reaching an execution primitive (%s) that its own gate does not dominate' % (t.qualname, ungated[0][1])
+                        elif acts and _helper_has_sink(repo, t):
+                            run.ok('C07.R1', (fi.file, c.lineno, fi.qualname), '%s [helper with its own gate before its sinks]' % unparse(c)[:80], 'gate inside %s dominates its sinks' % t.qualname)
                 if kind is None:
                     continue
-                if cfgmod.dominated_by_gate(g, n, c, _is_gate, seen):
+                if cfgmod.dominated_by_gate(g, n, c, is_gate, seen):
                     r = repo.resolve(fi.cls.name, '_require_safe', ayns=True)
                     if r is not gate_def:
                         run.violation('C07.R1', fi, unparse(c), 'gate resolves to %s, not ConfigNode.ayns._require_safe' % (r.qualname if r else None), node=c)
@@ -126,11 +179,15 @@ def r1(repo, run):
             raise AnalysisError('class %s resolves on_evaluate_impl outside the checked set' % cname)
     fstr = repo.resolve('FStrNode', 'on_evaluate_impl', ayns=True)
     if fstr is None or fstr.cls.name != 'EvalNode':
-        # FStrNode overriding evaluation is fine only if the override was checked above (it was: cha)
         run.info('C07.R1', fstr or 'FStrNode', 'FStrNode.on_evaluate_impl', 'overridden; checked as its own definition')
     else:
         run.ok('C07.R1', fstr, 'FStrNode inherits EvalNode.ayns.on_evaluate_impl', 'covered through inheritance')
-    run.floor('C07.R1', 9, '(sinks in Call/Bind/Eval/Import + inheritance)')
+    run.floor('C07.R1', 6, '(sinks in Call/Bind/Eval/Import + inheritance)')
+
+
+def _helper_has_sink(repo, fi):
+    tainted = _tainted_names(repo, fi)
+    return any(_sink_kind(c, tainted) for c in calls_in(fi.node))
 
 
 def r1b(repo, run):
@@ -149,6 +206,9 @@ def r1b(repo, run):
                 top = top.outer
             if top.qualname in R1_EXEMPT:
                 run.ok('C07.R1b', (fi.file, c.lineno, fi.qualname), unparse(c)[:80], 'exempt: ' + R1_EXEMPT[top.qualname])
+            elif fi.cls is not None and repo.is_subclass(fi.cls.name, 'ConfigNode') and fi.outer is None and \
+                    cfgmod.dominated_by_gate(cfg_of(fi), find_stmt_node(cfg_of(fi), c), c, _gate_pred(repo, fi)):
+                run.ok('C07.R1b', (fi.file, c.lineno, fi.qualname), unparse(c)[:80], 'node-class helper: dominated by its own self.ayns._require_safe')
             else:
                 run.violation('C07.R1b', fi, unparse(c), 'execution primitive %s used outside a gated on_evaluate_impl and outside the exemption table' % k, node=c)
     # module-level statements
@@ -163,7 +223,7 @@ def r1b(repo, run):
 
 
 def _safe_of(repo, o):
-    f = FDE(repo, inline={'notnone_or'})
+    f = FDE(repo)
     return fde_guard(lambda: f.getter(o, 'safe'))
 
 
@@ -194,7 +254,7 @@ def r2(repo, run):
     res = {}
     for sv in (True, False):
         o = node_obj('n', _safe=sv)
-        f = FDE(repo, inline={'notnone_or'})
+        f = FDE(repo)
         r = fde_guard(lambda: f.call(gate, o, 'p'))
         res[sv] = r.raised
     if res[False] != 'UnsafeError' or res[True] is not None:
@@ -208,11 +268,24 @@ def r2(repo, run):
 
 def r3(repo, run):
     n = 0
+    scan = []
     for cname in repo.subclasses('FunctionNode'):
         ci = repo.classes[cname]
-        fi = ci.ayns.get('on_evaluate_impl')
-        if fi is None or cname == 'FunctionNode':
+        fi0 = ci.ayns.get('on_evaluate_impl')
+        if fi0 is None or cname == 'FunctionNode':
             continue
+        todo = [fi0]
+        while todo:
+            f_ = todo.pop()
+            if f_ in scan:
+                continue
+            scan.append(f_)
+            for c in calls_in(f_.node):
+                if isinstance(c.func, ast.Attribute) and norm(c.func.value) in ('self', 'self.ayns', 'FunctionNode') and c.func.attr not in ('on_evaluate_impl', '_require_safe'):
+                    for t in repo.resolve_call(c, f_):
+                        if t.cls is not None and repo.is_subclass(t.cls.name, 'FunctionNode') and not t.is_property:
+                            todo.append(t)
+    for fi in scan:
         for c in calls_in(fi.node):
             evaluates_children = (is_method_call(c, member='on_evaluate_impl', ayns=True) or
                                   is_method_call(c, member=('evaluate_node', 'evaluate')))
@@ -241,8 +314,8 @@ def r3(repo, run):
             run.ok('C07.R3', (gw.file, hit.lineno, gw.qualname), unparse(hit), 'config lookup inside with self.ctx.require_all_safe(...)')
         else:
             run.violation('C07.R3', gw, unparse(hit), 'config value resolved as a name for evaluated code outside `with ...require_all_safe(...)`', node=hit)
-    if n < 2 or m < 1:
-        raise AnalysisError('C07.R3: expected >=2 child evaluations in Call/Bind and >=1 config lookup in GlobalsWrapper (got %d, %d)' % (n, m))
+    if n < 1 or m < 1:
+        raise AnalysisError('C07.R3: expected >=1 child evaluations in Call/Bind and >=1 config lookup in GlobalsWrapper (got %d, %d)' % (n, m))
     # the context manager itself
     cm = repo.func('EvalContext.require_all_safe')
     if not cm.is_contextmanager:
@@ -356,11 +429,22 @@ def _in_body(if_node, target):
     return any(n is target for s in if_node.body for n in ast.walk(s))
 
 
+def _is_cache_read(n):
+    if isinstance(n, ast.Subscript) and isinstance(n.value, ast.Attribute) and n.value.attr in CACHES:
+        return True
+    if isinstance(n, ast.Call) and isinstance(n.func, ast.Attribute) and n.func.attr in ('get', 'pop', 'setdefault') and isinstance(n.func.value, ast.Attribute) and n.func.value.attr in CACHES:
+        return True
+    return False
+
+
 def _handouts(fi):
     """(ast node, description) of every hand-out of an evaluated value in fi"""
     out = []
     for r in walk_no_nested(fi.node):
         if isinstance(r, ast.Return) and r.value is not None:
+            if isinstance(r.value, ast.Name) and not any(_is_cache_read(n) for n in ast.walk(r.value)):
+                if derives_from(fi, r.value, _is_cache_read, depth=2):
+                    out.append((r, 'returns cached value through local %s' % r.value.id))
             for n in ast.walk(r.value):
                 if isinstance(n, ast.Subscript) and isinstance(n.value, ast.Attribute) and n.value.attr in CACHES:
                     out.append((r, 'returns cached value ' + unparse(n)))
@@ -453,7 +537,7 @@ def r5(repo, run):
                 for b in F3:
                     me = node_obj('self', **{'_default_safe': None, fld: a})
                     ot = node_obj('other', **{'_default_safe': None, fld: b})
-                    f = FDE(repo, inline={'notnone_or'})
+                    f = FDE(repo)
                     fde_guard(lambda: f.call(fi, me, ot, allow_promotions=False))
                     rows += 1
                     new = me.f[fld]
@@ -569,7 +653,7 @@ def r7(repo, run):
             for pd in (None, True):
                 child = node_obj('child', 'ConfigNode', _implicit_safe=ci)
                 parent = node_obj('parent', 'ComposedNode', _implicit_safe=pi, _implicit_delete=pd, _children={'k': child})
-                f = FDE(repo, inline={'notnone_or'})
+                f = FDE(repo)
                 fde_guard(lambda: f.call(prop, parent))
                 rows += 1
                 if ci is False and child.f['_implicit_safe'] is not False:
@@ -590,7 +674,7 @@ def r7(repo, run):
             for ci in F3:
                 child = node_obj('child', 'ConfigNode', _implicit_safe=ci)
                 parent = node_obj('parent', 'ComposedNode', _safe=ps, _implicit_safe=pi)
-                f = FDE(repo, inline={'notnone_or'})
+                f = FDE(repo)
                 r = fde_guard(lambda: f.call(gk, parent, child))
                 rows += 1
                 kw = r.ret
@@ -598,7 +682,7 @@ def r7(repo, run):
                     bad.append((ps, pi, ci, kw.get('implicit_safe')))
             # new child: unsafety of the parent must be handed down
             parent = node_obj('parent', 'ComposedNode', _safe=ps, _implicit_safe=pi)
-            f = FDE(repo, inline={'notnone_or'})
+            f = FDE(repo)
             r = fde_guard(lambda: f.call(gk, parent))
             rows += 1
             if (ps is False or (ps is None and pi is False)) and r.ret.get('implicit_safe') is not False:
@@ -628,6 +712,7 @@ def check(repo, run, tier):
     r5(repo, run)
     r6(repo, run)
     r7(repo, run)
+    mr.propagation_table(repo, run, 'C07.R7', 'safe')
 
 
 def mutants(repo):
